@@ -55,14 +55,14 @@ func (srv *Server) ListenAndServe() error {
 		return errors.New("server already listening")
 	}
 
-	ctx, cancel := context.WithCancel(context.Background())
+	srvCtx, cancel := context.WithCancel(context.Background())
 	srv.shutdown = cancel
 
 	if len(srv.listeners) == 0 {
 		return errors.New("no listeners found")
 	}
 
-	eg, ctx := errgroup.WithContext(ctx)
+	eg, ctx := errgroup.WithContext(srvCtx)
 
 	for _, l := range srv.listeners {
 		if err := l.Listener.Listen(ctx, l.Addr); err != nil {
@@ -83,7 +83,9 @@ func (srv *Server) ListenAndServe() error {
 
 	err := eg.Wait()
 
-	if errors.Is(err, ctx.Err()) {
+	// After Close, whatever an acceptor reported while it was being shut down (the cancelled
+	// context, or the error of a listener that had just been closed) is the graceful case.
+	if srvCtx.Err() != nil || errors.Is(err, ctx.Err()) {
 		return ErrServerClosed
 	}
 	return err
